@@ -219,6 +219,10 @@ func (t *simTransport) Sync(target string, args *bnet.SyncRequest, resp *bnet.Sy
 	if tn != nil && len(resp.Events) >= req.SyncLimit && req.SyncLimit > 0 {
 		nw.Res.count("sync_hit_limit", 1)
 	}
+	nw.Res.max("sync_max_events_in_one_response", int64(len(resp.Events)))
+	if len(resp.Events) >= 500 {
+		nw.Res.count("sync_responses_with_500_or_more_events", 1)
+	}
 	return nil
 }
 
